@@ -1073,6 +1073,7 @@ func (w *world) run(obs *Obs) {
 			}
 			down := false
 			w.reg.set(func() { down = w.reg.off })
+			closedBefore := w.mounted && layer.VerifWaiterClosedC15(w.l)
 			t0 := time.Now()
 			done := make(chan error, 1)
 			go func() { done <- w.fsys.Check(context.Background(), mp, w.labels) }()
@@ -1087,7 +1088,13 @@ func (w *world) run(obs *Obs) {
 			if out.Res != "hang" {
 				out.Res = resOf(err)
 			}
-			out.Waited = el >= w.timeout-5*time.Millisecond
+			// "waited" is decided by its effect, not by the clock (a loaded machine makes any call slow): in a script the
+			// prefetch is either parked or over, so the only thing that can release an open waiter during the call is the
+			// timeout of the call's own wait
+			out.Waited = w.mounted && !o.Bad && !closedBefore && layer.VerifWaiterClosedC15(w.l)
+			if out.Waited && el < w.timeout-5*time.Millisecond {
+				w.bad("Check released the prefetch waiter after %v, before its timeout of %v", el, w.timeout)
+			}
 			if !o.Bad && w.mounted {
 				running := len(w.pfRunning) > 0 && !w.pfBodyRan
 				want, _ := w.effectiveRange()
